@@ -254,41 +254,39 @@ func (os *OutputStream) GetNext(ctx context.Context, lastseen robust.Id) []Messa
 	}
 
 	if !ok {
-		// Anything _newer_ than lastseen, i.e. the interval [lastseen.Id+1, ∞)
-		var key [8]byte
-		binary.BigEndian.PutUint64(key[:], uint64(lastseen.Id)+1)
-		i := os.db.NewIterator(&util.Range{
-			Start: key[:],
-			Limit: nil,
-		}, nil)
-		defer i.Release()
-		if i.First() {
-			mb := unmarshalMessageBatch(i.Value())
+		next, last := os.searchUnlocked(lastseen)
+		if next != nil {
 			os.messagesMu.RUnlock()
-			return mb.Messages
+			return next.Messages
 		}
-
-		// There is no message which is more recent than lastseen, so just take
-		// the last message and fallthrough into the code path that waits for
-		// newer messages.
-		i = os.db.NewIterator(nil, nil)
-		defer i.Release()
-		if !i.Last() {
-			log.Panicf("outputstream LevelDB is empty, which is a BUG\n")
-		}
-
-		current = unmarshalMessageBatch(i.Value())
+		current = last
 	}
 	os.messagesMu.RUnlock()
 
 	// Wait until a new message appears.
 	os.messagesMu.Lock()
 	for {
-		current, _ = os.getUnlocked(uint64(current.Messages[0].Id.Id))
-		next, ok := os.getUnlocked(current.NextID)
+		// While we were not holding the lock, current or the message its
+		// NextID points to may have been deleted (compaction), so apply the
+		// same case distinction as above.
+		c, ok := os.getUnlocked(uint64(current.Messages[0].Id.Id))
 		if ok {
-			os.messagesMu.Unlock()
-			return next.Messages
+			current = c
+			next, okNext := os.getUnlocked(current.NextID)
+			if okNext {
+				os.messagesMu.Unlock()
+				return next.Messages
+			}
+			// NextID points to a deleted message, fall back to binary search.
+			ok = current.NextID == math.MaxUint64
+		}
+		if !ok {
+			next, last := os.searchUnlocked(lastseen)
+			if next != nil {
+				os.messagesMu.Unlock()
+				return next.Messages
+			}
+			current = last
 		}
 		select {
 		case <-ctx.Done():
@@ -298,6 +296,32 @@ func (os *OutputStream) GetNext(ctx context.Context, lastseen robust.Id) []Messa
 		}
 		os.newMessage.Wait()
 	}
+}
+
+// searchUnlocked returns the oldest message which is more recent than
+// lastseen, or, if there is none, nil and the most recent message (after which
+// GetNext waits for newer messages). messagesMu must be held.
+func (os *OutputStream) searchUnlocked(lastseen robust.Id) (next *messageBatch, last *messageBatch) {
+	// Anything _newer_ than lastseen, i.e. the interval [lastseen.Id+1, ∞)
+	var key [8]byte
+	binary.BigEndian.PutUint64(key[:], uint64(lastseen.Id)+1)
+	i := os.db.NewIterator(&util.Range{
+		Start: key[:],
+		Limit: nil,
+	}, nil)
+	defer i.Release()
+	if i.First() {
+		return unmarshalMessageBatch(i.Value()), nil
+	}
+
+	// There is no message which is more recent than lastseen, so just take
+	// the last message: the caller waits for newer messages.
+	i = os.db.NewIterator(nil, nil)
+	defer i.Release()
+	if !i.Last() {
+		log.Panicf("outputstream LevelDB is empty, which is a BUG\n")
+	}
+	return nil, unmarshalMessageBatch(i.Value())
 }
 
 // InterruptGetNext interrupts any running GetNext() calls so that they return
